@@ -413,9 +413,10 @@ def round_scenario(sid, rnd):
             cls, "direct" if d["controllable"] else "basic", d["cpu"] / 1000.0, d["mem"])
         if d["static_expr"] != "":
             y += "  ports: %s\n" % yq(d["static_expr"])
-        if d["tcp_inbound"] + d["ipc_inbound"] > 0:
+        role_tcp = d.get("role_tcp", 0)       # inbound TCP channels bound by a role, not by the template
+        if d["tcp_inbound"] - role_tcp + d["ipc_inbound"] > 0:
             y += "bind:\n"
-            for i in range(d["tcp_inbound"]):
+            for i in range(d["tcp_inbound"] - role_tcp):
                 y += "  - name: t%d\n    type: push\n" % i
             for i in range(d["ipc_inbound"]):
                 y += "  - name: i%d\n    type: push\n    addressing: ipc\n" % i
@@ -425,12 +426,18 @@ def round_scenario(sid, rnd):
         if files.setdefault("tasks/%s.yaml" % cls, y) != y:
             raise vlib.Inconclusive("catalogue error: descriptors of class %s differ in their template" % d.get("class"))
         tag = "    vars:\n      c05_role: %s\n" % yq(d["id"])
+
+        def bind_yaml(ind):
+            return ind + "bind:\n" + "".join("%s  - name: r%d\n%s    type: push\n" % (ind, i, ind) for i in range(role_tcp))
+        at_group = role_tcp > 0 and d.get("role_bind_at") == "group" and group_cts is not None
         if group_cts is None:
-            roles += "  - name: %s\n" % yq(d["id"]) + tag + cts_yaml(task_cts, "    ") + "    task:\n      load: %s\n" % cls
+            roles += ("  - name: %s\n" % yq(d["id"]) + tag + cts_yaml(task_cts, "    ") + (bind_yaml("    ") if role_tcp else "")
+                      + "    task:\n      load: %s\n" % cls)
         else:
-            roles += "  - name: %s\n" % yq("g" + d["id"]) + cts_yaml(group_cts, "    ") + "    roles:\n"
+            roles += "  - name: %s\n" % yq("g" + d["id"]) + cts_yaml(group_cts, "    ") + (bind_yaml("    ") if at_group else "") + "    roles:\n"
             roles += ("      - name: %s\n" % yq(d["id"]) + tag.replace("    ", "        ", 1).replace("\n      ", "\n          ")
-                      + cts_yaml(task_cts, "        ") + "        task:\n          load: %s\n" % cls)
+                      + cts_yaml(task_cts, "        ") + (bind_yaml("        ") if role_tcp and not at_group else "")
+                      + "        task:\n          load: %s\n" % cls)
     wf = "c05wf%d" % sid
     files["workflows/%s.yaml" % wf] = "name: %s\nroles:\n%s" % (wf, roles)
     agents = [{"ID": "a" + o["id"], "Host": o["host"], "Attrs": o["attrs"], "CPUs": o["cpus"] / 1000.0, "Mem": o["mem"],
